@@ -25,5 +25,15 @@ for f in sorted(glob.glob(V + "/seeded/*/meta.json")):
     lines.append(f"| {m['id']} | {m['breaks_property']} | {m['needs_to_manifest'][:150].replace('|', '/')} | {' '.join(caught + other)} | {' '.join(quiet_)} |")
 seed = f"{n} of {tot} seeded changes are caught by the quick check of the property they were written to break.\n\n" + "\n".join(lines)
 s = re.sub(r"<!-- SEEDS-BEGIN -->.*?<!-- SEEDS-END -->", "<!-- SEEDS-BEGIN -->\n" + seed + "\n<!-- SEEDS-END -->", s, flags=re.S)
+# budgets per part, read from the property modules
+import importlib, sys
+sys.path.insert(0, V)
+lines = ["| property | part | quick budget | thorough budget |", "|---|---|---|---|"]
+for i in range(1, 21):
+    mod = importlib.import_module(f"pbt.props.c{i:02d}")
+    for name, part in mod.PARTS.items():
+        b = part["budget"]
+        lines.append(f"| C{i:02d} | {name}{' (exhaustive)' if part.get('exhaustive') else ''} | {b.get('quick') or '–'} | {b.get('thorough') or '–'} |")
+s = re.sub(r"<!-- BUDGETS-BEGIN -->.*?<!-- BUDGETS-END -->", "<!-- BUDGETS-BEGIN -->\n" + "\n".join(lines) + "\n<!-- BUDGETS-END -->", s, flags=re.S)
 open(V + "/DESIGN.md", "w").write(s)
 print("mutants", caught, "seeds", n, tot)
